@@ -73,6 +73,23 @@ func (u *Unit) builtinModel(st *State, call *ast.CallExpr, fn *types.Func, key s
 		}
 	case "sync/atomic":
 		if recv != nil {
+			// x.f.Op() on an atomic field a lock is declared to guard: the access needs the lock
+			if se, ok := ast.Unparen(call.Fun).(*ast.SelectorExpr); ok && len(u.eng.cs.Locks) > 0 {
+				if inner, ok := ast.Unparen(se.X).(*ast.SelectorExpr); ok {
+					if sel, ok := u.info().Selections[inner]; ok && sel.Kind() == types.FieldVal && len(sel.Index()) == 1 {
+						if f, ok := sel.Obj().(*types.Var); ok {
+							oT := sel.Recv()
+							if p, ok := oT.Underlying().(*types.Pointer); ok {
+								oT = p.Elem()
+							}
+							if u.fieldIsGuarded(oT, f.Name()) {
+								base := u.eval(st, inner.X)
+								u.checkGuarded(st, oT, f, base.S, call, fn.Name() != "Load")
+							}
+						}
+					}
+				}
+			}
 			return u.atomicOp(st, fn, recv, args, call.Pos())
 		}
 	case "time":
@@ -389,6 +406,19 @@ func (u *Unit) lockOp(st *State, call *ast.CallExpr, op string) {
 				if f.Name() != g {
 					continue
 				}
+				if n, isN := types.Unalias(f.Type()).(*types.Named); isN && n.Obj().Pkg() != nil && n.Obj().Pkg().Path() == "sync/atomic" {
+					// an atomic the lock protects: other holders of the lock may have changed it
+					heap := atomicHeapOf(f.Type())
+					asort := SInt
+					if heap == "ATOM$bool" {
+						asort = SBool
+					}
+					sub := u.fieldRead(st, ls.owner, f, ls.ref)
+					hs := sArr(SInt, asort)
+					u.logWrite(st, heap, sub.S)
+					u.setHeap(st, heap, hs, tStore(u.heapTerm(st, heap, hs), sub.S, u.fresh("guarded."+g, asort)))
+					continue
+				}
 				if isStructVal(f.Type()) || isArrayT(f.Type()) || isOpaqueStruct(f.Type()) {
 					continue
 				}
@@ -477,6 +507,25 @@ func (u *Unit) havocOwned(st *State, name string) {
 	sort := u.ghostSort(genv, gh)
 	u.heapTerm(st, "G$"+gh.Name, sort)
 	u.havocHeap(st, "G$"+gh.Name)
+}
+
+// fieldIsGuarded: some lock spec of the named type T lists field name.
+func (u *Unit) fieldIsGuarded(T types.Type, name string) bool {
+	n, ok := types.Unalias(T).(*types.Named)
+	if !ok || n.Obj().Pkg() == nil {
+		return false
+	}
+	for _, l := range u.eng.cs.Locks {
+		if l.Type != n.Obj().Name() || l.PkgPath != n.Obj().Pkg().Path() {
+			continue
+		}
+		for _, g := range l.Guards {
+			if g == name {
+				return true
+			}
+		}
+	}
+	return false
 }
 
 // checkGuarded emits an obligation when a lock-guarded field is accessed without the lock.
